@@ -15,8 +15,8 @@
    code-length codes must be complete; the fixed distance code has 30 of 32 codes (30, 31 invalid).
 
    Everything is total: loops run on fuel proportional to the input length (every block consumes
-   >= 3 bits, every symbol >= 1 bit); running out of fuel cannot happen with the fuel [inflate_raw]
-   supplies and is reported as None. *)
+   >= 3 bits, every symbol >= 1 bit); running out of fuel is reported as None and cannot happen with
+   the fuel [inflate_raw] supplies (NV.Bgzf.InflateFuel.inflate_fuel_sufficient). *)
 From Coq Require Import List Arith NArith Bool.
 From NV Require Import Base.LE Bgzf.Frame.
 Import ListNotations.
